@@ -19,7 +19,7 @@ import (
 // (database, journal) pair a dead writer leaves behind; sqlittle must fail or
 // return exactly what real SQLite reports after its own recovery.
 
-func crashScenario(c *sim.Ctx) (crash.Scenario, []string, int, string) {
+func crashScenario(c *sim.Ctx) (crash.Scenario, []string, int, string, bool) {
 	s := c.Src
 	u := []int{512, 1024, 4096, 65536, 512, 1024}[s.Draw(6, "pagesize")]
 	jm := []string{"DELETE", "TRUNCATE", "PERSIST"}[s.Draw(3, "jmode")]
@@ -27,20 +27,31 @@ func crashScenario(c *sim.Ctx) (crash.Scenario, []string, int, string) {
 	if u == 65536 {
 		n = 300 + s.Draw(300, "rows64k")
 	}
-	setup := []string{
-		fmt.Sprintf("PRAGMA page_size=%d", u),
-		"PRAGMA journal_mode=" + jm,
+	// one scenario in five starts from a brand-new, zero-length database: the first
+	// recorded transaction creates the schema and the rows (nothing is ever journalled
+	// in it: the journal's record count and initial size stay zero)
+	fresh := s.Chance(1, 5, "fresh-database")
+	ddl := []string{
 		"CREATE TABLE t (id INTEGER PRIMARY KEY, v TEXT, n INT)",
 		"CREATE INDEX tv ON t (v)",
 		"CREATE TABLE g (k TEXT PRIMARY KEY, w) WITHOUT ROWID",
-		"BEGIN",
+	}
+	setup := []string{
+		fmt.Sprintf("PRAGMA page_size=%d", u),
+		"PRAGMA journal_mode=" + jm,
 	}
 	pad := func(k int) string { return strings.Repeat("p", 10+(k*37)%90) }
+	var load []string
 	for i := 1; i <= n; i++ {
-		setup = append(setup, fmt.Sprintf("INSERT INTO t VALUES (%d, 'base-%04d-%s', 0)", i, i, pad(i)))
+		load = append(load, fmt.Sprintf("INSERT INTO t VALUES (%d, 'base-%04d-%s', 0)", i, i, pad(i)))
 	}
-	setup = append(setup, "COMMIT")
-	if jm == "PERSIST" && s.Chance(2, 3, "persisted-journal-present") {
+	if !fresh {
+		setup = append(setup, ddl...)
+		setup = append(setup, "BEGIN")
+		setup = append(setup, load...)
+		setup = append(setup, "COMMIT")
+	}
+	if !fresh && jm == "PERSIST" && s.Chance(2, 3, "persisted-journal-present") {
 		// a completed transaction leaves a persisted (zero-headered) journal behind
 		setup = append(setup, "UPDATE t SET n = 1 WHERE id = 1")
 	}
@@ -48,7 +59,19 @@ func crashScenario(c *sim.Ctx) (crash.Scenario, []string, int, string) {
 	// runs (record count 0 / -1 / n) and which syncs separate the writes
 	syncMode := []string{"FULL", "NORMAL", "OFF", "FULL"}[s.Draw(4, "synchronous")]
 	sc := crash.Scenario{Pragmas: []string{"PRAGMA journal_mode=" + jm, "PRAGMA cache_size=5", "PRAGMA synchronous=" + syncMode}}
+	if fresh {
+		sc.Pragmas = append([]string{fmt.Sprintf("PRAGMA page_size=%d", u)}, sc.Pragmas...)
+		first := []string{"BEGIN IMMEDIATE"}
+		first = append(first, ddl...)
+		if s.Chance(2, 3, "fresh-load") {
+			first = append(first, load[:1+s.Draw(len(load), "fresh-nload")]...)
+		}
+		sc.Txns = append(sc.Txns, append(first, "COMMIT"))
+	}
 	ntx := 1 + s.Draw(3, "ntxn")
+	if fresh {
+		ntx = s.Draw(2, "ntxn-fresh")
+	}
 	for t := 1; t <= ntx; t++ {
 		var txn []string
 		txn = append(txn, "BEGIN IMMEDIATE")
@@ -81,7 +104,7 @@ func crashScenario(c *sim.Ctx) (crash.Scenario, []string, int, string) {
 		}
 		sc.Txns = append(sc.Txns, txn)
 	}
-	return sc, setup, u, jm
+	return sc, setup, u, jm, fresh
 }
 
 func allZero(b []byte) bool {
@@ -98,7 +121,10 @@ func runC09(c *sim.Ctx) {
 	e := env(c)
 	dir, cleanup := e.RunDir()
 	defer cleanup()
-	sc, setup, u, jm := crashScenario(c)
+	sc, setup, u, jm, fresh := crashScenario(c)
+	if fresh {
+		c.Probe("fresh-database-scenario")
+	}
 	dbPath := filepath.Join(dir, "db")
 	if err := e.W.Open("s", dbPath); err != nil {
 		c.Troublef("open: %v", err)
@@ -157,6 +183,9 @@ func runC09(c *sim.Ctx) {
 		t, g [][]sq.Val
 		ix   [][]sq.Val
 		ok   bool
+		// the recovered database has no table t / g (a crash inside the transaction that
+		// creates them): reading it must fail, never deliver rows
+		noT, noG bool
 	}
 	reference := func(f crash.Files) refContent {
 		p := writePair(refDir, f)
@@ -165,10 +194,32 @@ func runC09(c *sim.Ctx) {
 			return rc
 		}
 		defer e.W.CloseConn("ref")
-		t, r1, err1 := e.W.Typed("ref", []string{"id", "v", "n"}, "FROM t ORDER BY id")
-		ix, r2, err2 := e.W.Typed("ref", []string{"id", "v", "n"}, "FROM t NOT INDEXED ORDER BY v, id")
-		g, r3, err3 := e.W.Typed("ref", []string{"k", "w"}, "FROM g ORDER BY k")
-		if err1 != nil || err2 != nil || err3 != nil || r1 == nil || !r1.OK || !r2.OK || !r3.OK {
+		have := map[string]bool{}
+		ms, rm, errm := e.W.Query("ref", "SELECT name FROM sqlite_master")
+		if errm != nil || rm == nil || !rm.OK {
+			return rc
+		}
+		for _, m := range ms {
+			switch x := m[0].(type) {
+			case string:
+				have[x] = true
+			case []byte:
+				have[string(x)] = true
+			}
+		}
+		var t, ix, g [][]sq.Val
+		var err1, err2, err3 error
+		r1, r2, r3 := rm, rm, rm
+		if have["t"] {
+			t, r1, err1 = e.W.Typed("ref", []string{"id", "v", "n"}, "FROM t ORDER BY id")
+			if have["tv"] {
+				ix, r2, err2 = e.W.Typed("ref", []string{"id", "v", "n"}, "FROM t NOT INDEXED ORDER BY v, id")
+			}
+		}
+		if have["g"] {
+			g, r3, err3 = e.W.Typed("ref", []string{"k", "w"}, "FROM g ORDER BY k")
+		}
+		if err1 != nil || err2 != nil || err3 != nil || r1 == nil || r2 == nil || r3 == nil || !r1.OK || !r2.OK || !r3.OK {
 			if os.Getenv("VERIF_TRACE") != "" {
 				fmt.Fprintf(os.Stderr, "TRACE ref failed: %v %v %v %+v %+v %+v\n", err1, err2, err3, r1, r2, r3)
 			}
@@ -188,7 +239,7 @@ func runC09(c *sim.Ctx) {
 		if okText != "ok" {
 			return rc
 		}
-		return refContent{t, g, ix, true}
+		return refContent{t: t, g: g, ix: ix, ok: true, noT: !have["t"] || !have["tv"], noG: !have["g"]}
 	}
 	check := func(k int, cut int, f crash.Files, phase string) {
 		h := sha256.New()
@@ -224,19 +275,29 @@ func runC09(c *sim.Ctx) {
 		}
 		judge := func(label string, run func(op ops.Op) ops.Result) {
 			type q struct {
-				op   ops.Op
-				want [][]sq.Val
+				op     ops.Op
+				want   [][]sq.Val
+				absent bool
 			}
 			qs := []q{
-				{ops.Op{Kind: "select", Table: "t", Cols: []string{"id", "v", "n"}}, ref.t},
-				{ops.Op{Kind: "ixselect", Table: "t", Index: "tv", Cols: []string{"id", "v", "n"}}, ref.ix},
-				{ops.Op{Kind: "select", Table: "g", Cols: []string{"k", "w"}}, ref.g},
+				{ops.Op{Kind: "select", Table: "t", Cols: []string{"id", "v", "n"}}, ref.t, ref.noT},
+				{ops.Op{Kind: "ixselect", Table: "t", Index: "tv", Cols: []string{"id", "v", "n"}}, ref.ix, ref.noT},
+				{ops.Op{Kind: "select", Table: "g", Cols: []string{"k", "w"}}, ref.g, ref.noG},
 			}
 			for _, x := range qs {
 				r := run(x.op)
 				if r.Panic != nil {
 					c.Fail("panic", "panic:"+phase, fmt.Sprintf("%s panicked on a crash image: %v", x.op.String(), r.Panic), detail)
 					return
+				}
+				if x.absent {
+					// after SQLite's recovery the table (or its index) does not exist
+					if r.Err == nil || len(r.Rows) > 0 {
+						c.Fail("unrecovered-data-read", "unrecovered-object:"+phase, fmt.Sprintf("[%s] crash after %d/%d syscalls (%s, journal %s): %s returned %d rows, err=%v; after SQLite's recovery that table/index does not exist", label, k, len(tr.Ops), phase, jdesc, x.op.String(), len(r.Rows), r.Err), detail)
+						return
+					}
+					c.Probe("object-absent-after-recovery")
+					continue
 				}
 				if r.Err != nil {
 					if len(r.Rows) > 0 {
@@ -270,10 +331,13 @@ func runC09(c *sim.Ctx) {
 		p := writePair(imgDir, f)
 		d, err := sqlittleOpen(p)
 		if err != nil {
-			if journalHarmless {
+			if journalHarmless && !(ref.noT && ref.noG) {
 				c.Fail("harmless-journal-prevents-reading", "open-refused:"+phase, fmt.Sprintf("crash after %d/%d syscalls (%s): journal is %s, yet Open failed: %v", k, len(tr.Ops), phase, jdesc, err), detail)
 			}
 			c.Inc("refused_images", 1)
+			if ref.noT && ref.noG {
+				c.Probe("empty-after-recovery-refused")
+			}
 		} else {
 			judge("fresh handle", func(op ops.Op) ops.Result { return ops.Run(d, op, nil) })
 			d.Close()
@@ -368,7 +432,7 @@ func init() {
 	sim.Register(&sim.Prop{
 		ID: "C09", Engine: "E-CRASH", Level: "fault_enumeration", Fn: runC09, NewEnv: NewEnv,
 		Runs: map[string]int{"quick": 32, "thorough": 480},
-		Rule: "per run: a scenario (page size 512/1024/4096/65536, journal mode DELETE/TRUNCATE/PERSIST incl. a second transaction over a persisted journal, cache_size 5 so dirty pages spill before commit, 1-3 transactions of updates/inserts/deletes/rollbacks) is executed by real SQLite under strace; the parsed trace must reproduce SQLite's final files byte for byte; then EVERY system-call boundary is a crash point and every write is additionally torn at each 512-byte boundary (first 6 in quick) and 3 drawn byte positions; each distinct (database, journal) pair is read through a fresh sqlittle handle and, one in six, through a long-lived handle that cached the pre-transaction state; oracle: a copy is opened by real SQLite (own recovery + integrity_check) - sqlittle must fail or return exactly that content, and may not fail when the journal is absent, empty or zero-headered; evaluations = distinct crash images; non-trivial run = trace with >2 writes; states = (crash phase, journal harmless?, journal mode)",
+		Rule: "per run: a scenario (page size 512/1024/4096/65536, journal mode DELETE/TRUNCATE/PERSIST incl. a second transaction over a persisted journal, cache_size 5 so dirty pages spill before commit, 1-3 transactions of updates/inserts/deletes/rollbacks; one scenario in five starts from a zero-length database whose first recorded transaction creates schema and rows) is executed by real SQLite under strace; the parsed trace must reproduce SQLite's final files byte for byte; then EVERY system-call boundary is a crash point and every write is additionally torn at each 512-byte boundary (first 6 in quick) and 3 drawn byte positions; each distinct (database, journal) pair is read through a fresh sqlittle handle and, one in six, through a long-lived handle that cached the pre-transaction state; oracle: a copy is opened by real SQLite (own recovery + integrity_check) - sqlittle must fail or return exactly that content, a table that does not exist after SQLite's recovery must not be readable, and sqlittle may not fail when the journal is absent, empty or zero-headered (unless the recovered database is empty); evaluations = distinct crash images; non-trivial run = trace with >2 writes; states = (crash phase, journal harmless?, journal mode)",
 		Real: append([]string{"unix file pager + journal check on real files; crash images are produced from real SQLite's recorded system calls"}, realAll...),
 		Stub: []string{"the dying writer process is represented by its recorded system calls applied to file copies (process death loses no completed write; power loss is out of the property's quantifier)"},
 		Assumptions: []string{"strace output parsed for openat/pwrite64/write/ftruncate/fsync/fdatasync/unlink/fcntl/close on the database and its journal; fidelity is checked per trace", "images on which SQLite itself cannot recover a consistent database are counted as inconclusive"},
@@ -377,7 +441,7 @@ func init() {
 			if st["refused_images"] == 0 || st["read_equal_to_recovered"] == 0 {
 				return fmt.Errorf("refused=%d equal=%d", st["refused_images"], st["read_equal_to_recovered"])
 			}
-			for _, p := range []string{"long-lived-handle-image", "persisted-journal-in-base"} {
+			for _, p := range []string{"long-lived-handle-image", "persisted-journal-in-base", "fresh-database-scenario", "empty-after-recovery-refused"} {
 				if st["probe."+p] == 0 {
 					return fmt.Errorf("reach probe %q is zero", p)
 				}
